@@ -44,7 +44,7 @@ def lean_check(theorems, tier):
     env = dict(os.environ)
     p = subprocess.run(["lean", LEAN_FILE], capture_output=True, text=True, cwd=os.path.dirname(LEAN_FILE), env=env,
                        timeout=1800)
-    ok = p.returncode == 0 and "error" not in p.stdout and not bad
+    ok = p.returncode == 0 and "error:" not in p.stdout and not bad
     dt = time.time() - t0
     out = []
     for th in theorems:
@@ -220,6 +220,8 @@ def run_check(pid, tier):
                 if kk not in known_hit:
                     known_hit.append(kk)
                     print("KNOWN-FINDING: property=%s %s" % (pid, kk.get("what")))
+                continue
+            if any(x.get("site") == v.get("site") for x in nat_viol):
                 continue
             nat_viol.append(v)
     if violations or nat_viol:
